@@ -89,10 +89,10 @@ def _cases(tier, rng):
         for cfg in CONFIGS_QUICK:
             yield {"prog": prog, "cfg": cfg, "seed": rng.randrange(10**6)}
     # consumers that read blocks (slices over internal and mapped axes) of an output with an interior internal axis
-    for q in range(8 if tier == "quick" else 80):
-        prog = progs.gen_internal_consumer_program(rng)
-        for cfg in CONFIGS_QUICK:
-            yield {"prog": prog, "cfg": cfg, "seed": rng.randrange(10**6)}
+    for rep in range(1 if tier == "quick" else 5):
+        for prog in progs.all_internal_consumer_programs(rng):  # every internal-axis position x key pattern
+            for cfg in CONFIGS_QUICK:
+                yield {"prog": prog, "cfg": cfg, "seed": rng.randrange(10**6)}
 
 
 def _has_none(v):
